@@ -5,6 +5,13 @@
    filters.rs (cmp_helper, sort, unique, groupby, batch, slice, reverse, min, max),
    mirrored function by function.  No proofs in this file.
 
+   The model follows the code WITH the C07 fixes (commit 2952ae1 as_f64 round trip -- shared
+   with C08 --, and the worktree commits: i64::try_from of the float 2^63, case folding only
+   for strings, sort(attribute) with failing lookups, batch/slice capacity, reverse of a
+   map); known/C07.json lists the hashes and what each of them repaired.  Behaviour that stays as it is and
+   is a known finding is modelled as it is (kind-first ordering vs ==, Enumerator::RevIter in
+   Value::reverse, the groupby label).
+
    Floats are IEEE binary64 *bit patterns* (a Z in [0, 2^64)); every float operation the
    code uses (==, total_cmp, `as f64` of an integer with round-to-nearest-even, saturating
    `as i64/i128/u128`, trunc, is_finite, >=) is defined on the bit pattern with integer
@@ -159,8 +166,8 @@ Definition as_f64 (v : value) (lossy : bool) : option Z :=
   | VBool b => Some (if b then f_of_int 1 else 0)
   | VInt w z =>
       let rv := f_of_int z in
-      (* `rv as $ty == $expr && rv != <$ty>::MAX as f64` (the cast back saturates) *)
-      if lossy || ((f_to_int (int_lo w) (int_hi w) rv =? z) && negb (f_eq rv (f_of_int (int_hi w))))
+      (* `rv < <$ty>::MAX as f64 && rv as $ty == $expr` (the cast back saturates) *)
+      if lossy || (f_lt rv (f_of_int (int_hi w)) && (f_to_int (int_lo w) (int_hi w) rv =? z))
       then Some rv else None
   | VFloat bits => Some bits
   | _ => None
@@ -171,13 +178,10 @@ Inductive coerced :=
 | CoF (a b : Z)
 | CoS (a b : list Z).
 
-Definition wrap_i128 (z : Z) : Z := if i128_max <? z then z - 2 ^ 128 else z.
-
 (* ops.rs::coerce(a, b, lossy = false) *)
 Definition coerce (a b : value) : option coerced :=
   match a, b with
   | VInt W_U64 x, VInt W_U64 y => Some (CoI x y)
-  | VInt W_U128 x, VInt W_U128 y => Some (CoI (wrap_i128 x) (wrap_i128 y))
   | VStr _ x, VStr _ y => Some (CoS x y)
   | VInt W_I64 x, VInt W_I64 y => Some (CoI x y)
   | VInt W_I128 x, VInt W_I128 y => Some (CoI x y)
@@ -361,6 +365,7 @@ Definition scalar_eq (a b : value) : bool :=
   | VUndef, VUndef => true
   | VStr _ x, VStr _ y => zlist_eqb x y
   | VBytes x, VBytes y => zlist_eqb x y
+  | VInt W_U128 x, VInt W_U128 y => x =? y
   | _, _ =>
       match coerce a b with
       | Some (CoF x y) => f_eq x y
@@ -372,8 +377,9 @@ Definition scalar_eq (a b : value) : bool :=
 
 (* Note on the Map arm: the code evaluates `b.get_value(&k) == Some(v1)`, i.e.
    Value::eq(found, v1); the model calls [veq v1 found] (structural recursion on the first
-   argument).  The two coincide because == is symmetric on this value universe
-   (theorem veq_sym); the correspondence run compares both argument orders of every pair. *)
+   argument).  The two coincide where == is symmetric (theorem veq_sym: well-formed values
+   outside the known pair classes, NaN aside); the correspondence run compares both argument
+   orders of every pair of the pool. *)
 Fixpoint veq (a b : value) {struct a} : bool :=
   let elems := fix elems (xs ys : list value) {struct xs} : bool :=
     match xs, ys with
